@@ -562,6 +562,25 @@ package autodiff
 //@   ensures lift2_post_$R(c, a, b, ((old(val(a))) / (old(val(b)))), (1 / (old(val(b)))), (((0 - 1) * old(val(a))) / ((old(val(b)) * old(val(b))))), (((0 - 1)) / ((old(val(b)) * old(val(b))))), 0, ((2 * old(val(a))) / ((old(val(b)) * old(val(b)) * old(val(b))))))
 //@   modifies $R.Value@{c}, $R.N@{c}, $R.Order@{c}, $R.Derivative@{c}, $R.Hessian@{c}, []$F@{q :: owns_$R(c, q)}
 
+//@ func (*$R).Pow [also: (*$R).POW]
+//@   model split
+//@   requires RI_$R(c) && RIc(a) && RIc(k) && sep_$R(c, a) && sep_$R(c, k) && constNoVars(a) && constNoVars(k) && noRealloc_$R(c, a, k)
+//@   requires val(a) > 0
+//@   panics_when order(a) >= 1 && order(k) >= 1 && nvars(a) != nvars(k)
+//@   site dyadicLazy|realDyadicLazy @v0 v0 == pow(val(a), val(b))
+//@   site dyadicLazy|realDyadicLazy @v10 call0(f1) == ((val(b) * pow(val(a), val(b))) / (val(a)))
+//@   site dyadicLazy|realDyadicLazy @v01 call1(f1) == (pow(val(a), val(b)) * log(val(a)))
+//@   site dyadicLazy|realDyadicLazy @v11 call0(f2) == ((pow(val(a), val(b)) * ((val(b) * log(val(a))) + 1)) / (val(a)))
+//@   site dyadicLazy|realDyadicLazy @v20 call1(f2) == ((val(b) * pow(val(a), val(b)) * (val(b) + (-1))) / ((val(a) * val(a))))
+//@   site dyadicLazy|realDyadicLazy @v02 call2(f2) == (pow(val(a), val(b)) * (log(val(a)) * log(val(a))))
+//@   site monadicLazy|realMonadicLazy @m0 v0 == pow(val(a), val(k))
+//@   site monadicLazy|realMonadicLazy @m1 call(f1) == ((val(k) * pow(val(a), val(k))) / (val(a)))
+//@   site monadicLazy|realMonadicLazy @m2 call(f2) == ((val(k) * pow(val(a), val(k)) * (val(k) + (-1))) / ((val(a) * val(a))))
+//@   ensures isa(*$R, result) && as(*$R, result) == c
+//@   ensures @dy old(order(k)) >= 1 ==> lift2_post_$R(c, a, k, pow(old(val(a)), old(val(k))), ((old(val(k)) * pow(old(val(a)), old(val(k)))) / (old(val(a)))), (pow(old(val(a)), old(val(k))) * log(old(val(a)))), ((pow(old(val(a)), old(val(k))) * ((old(val(k)) * log(old(val(a)))) + 1)) / (old(val(a)))), ((old(val(k)) * pow(old(val(a)), old(val(k))) * (old(val(k)) + (-1))) / ((old(val(a)) * old(val(a))))), (pow(old(val(a)), old(val(k))) * (log(old(val(a))) * log(old(val(a))))))
+//@   ensures @mo old(order(k)) == 0 ==> lift1_post_$R(c, a, pow(old(val(a)), old(val(k))), ((old(val(k)) * pow(old(val(a)), old(val(k)))) / (old(val(a)))), ((old(val(k)) * pow(old(val(a)), old(val(k))) * (old(val(k)) + (-1))) / ((old(val(a)) * old(val(a))))))
+//@   modifies $R.Value@{c}, $R.N@{c}, $R.Order@{c}, $R.Derivative@{c}, $R.Hessian@{c}, []$F@{q :: owns_$R(c, q)}
+
 //@ end
 
 // composite operations (jet-level symbolic execution over the proved primitives)
